@@ -1018,6 +1018,9 @@ func runC05(e *Engine, r *Report, tier string) {
 
 	// ---------- R8: an observed execution excludes the timeout refund (decided as C06.R7) ----------
 	r.Rule("R8", "a record whose observed result is parked is not refunded for timeout (C06.R7)", 1, "C06 obligations")
+	r.Rule("R9", "what is queued is what was collected: no amount is written into a struct copy that nobody reads, no result of immutable arithmetic is dropped (x/crosschain)", 2, "")
+	e.ruleLostStructWrites(r, "R9", "/x/crosschain")
+	e.ruleDiscardedArithmetic(r, "R9", "/x/crosschain")
 	{
 		sub06 := NewReport("C06", "other")
 		runC06(e, sub06, tier)
